@@ -290,6 +290,18 @@ class FrameDiff:
 
     def same_ref(self, old_v, new_v):
         """old_v is a clone-side value, new_v a live value"""
+        if isinstance(new_v, tuple) and isinstance(old_v, tuple):
+            # tuples are immutable values; heap objects inside them are compared by identity (clone <-> live)
+            if len(new_v) != len(old_v):
+                return False
+            out = []
+            for x, y in zip(old_v, new_v):
+                r = self.same_ref(x, y)
+                if r is False:
+                    return False
+                if r is not True:
+                    out.append(r)
+            return True if not out else z3.And(out)
         if isinstance(new_v, (Obj, PyList, PyDict, PySet, SymSeq, SymMap, ByteArray)):
             c = self.snap.memo.get(id(new_v))
             if c is None:
